@@ -202,7 +202,7 @@ def run_case(case, tier="quick", src_root=None, findings=()):
     return rec
 
 
-BATCH = 60
+BATCH = 16
 
 
 def make_jobs(case, cx, syms_by_path, tier, findings, rec):
